@@ -229,8 +229,14 @@ def check_wrappers(rep, ctx):
             newv = [v for k, v in cap.items() if k != "self"]
             new_arg = r.args[0].child(("f", newv[0])) if newv else None
             cm = [c for c in ev if c.kind == "streq"]
-            if not g or not cm or not isinstance(flag, Scalar):
+            if not g or not isinstance(flag, Scalar):
                 rep.add(Query("wrapper %s path %d: shape" % (fn, i), "inconclusive", "getter %d compare %d" % (len(g), len(cm)), 0, "mirsym"))
+                continue
+            if not cm:
+                # the path answers updated / not updated without having compared the stored value with the offered one
+                # (e.g. an empty id - which is what a document without rules for the endpoint carries - taken as "nothing to do")
+                rep.add(Query("wrapper %s path %d: reports updated <=> stored value differs from the offered one" % (fn, i), "violated",
+                              "the path returns %s without comparing the stored and the offered value" % z3.simplify(flag.e), 0, "mirsym+z3", key="C09.wrapper:" + fn, reproduced=None))
                 continue
             same = cm[-1].extra
             okops = any(derives(x, g[0].ret, ev) for x in cm[-1].rargs) and any(new_arg is not None and derives(x, new_arg, ev) for x in cm[-1].rargs)
@@ -389,6 +395,82 @@ def _present_flag(ctx, r, rules, field):
     return None
 
 
+def check_document_validity(rep, ctx):
+    """'a poll that returns an invalid document changes nothing': get_status hands out a document only after validate() accepted it,
+    and validate() accepts exactly the documents of the reference predicate (differential: implementation vs a short reference model,
+    over every version text, presence of the two channel fields and every state text):
+      valid <=> not(both channel fields missing) and (state present => lower(state) in {disabled, wireserver, wireserverandimds})
+                and (state missing => version != "1.0") and (enabled missing => version != "2.0")"""
+    # U1: get_status
+    try:
+        w = ctx.one("key::get_status") + "::{closure#0}"
+    except Inconclusive as e:
+        rep.add(Query("get_status located", "inconclusive", str(e), 0, "mirsym", key="C09.valid.get_status"))
+        w = None
+    if w:
+        eng = ctx.engine(loop_bound=1)
+        n = 0
+        for i, r in enumerate(eng.explore(w)):
+            if not (r.status == "return" and isinstance(r.ret, Agg) and r.ret.variant == "Ok"):
+                continue
+            n += 1
+            doc = [e for e in r.events if e.kind == "await" and re.search(r"hyper_client::get$|(^|::)get$", e.callee)]
+            va = [e for e in r.events if e.kind == "call" and e.callee.endswith("KeyStatus::validate")]
+            ok = bool(doc) and len(va) >= 1 and derives(va[-1].rargs[0], doc[-1].ret, r.events) and implied(r, va[-1].ret.discr() == 0) and derives(r.ret.fields[0], doc[-1].ret, r.events)
+            rep.add(Query("get_status path %d: a document is handed out only after validate() accepted that very document" % i, "holds" if ok else "violated", "validate calls %d" % len(va), 0, "mirsym+z3",
+                          key="C09.valid.get_status", reproduced=None))
+        rep.functions_encoded.append(w)
+        rep.add(Query("witness: get_status has a succeeding path", "witness-hit" if n else "witness-missed", "%d" % n, 0, "mirsym"))
+    # U2: validate against the reference
+    try:
+        w = ctx.method("KeyStatus", "validate")
+    except Inconclusive as e:
+        rep.add(Query("KeyStatus::validate located", "inconclusive", str(e), 0, "mirsym", key="C09.valid.reference"))
+        return
+    f_en, f_st, f_ver = ctx.field("KeyStatus", "secureChannelEnabled"), ctx.field("KeyStatus", "secureChannelState"), ctx.field("KeyStatus", "version")
+    eng = ctx.engine(loop_bound=1, max_paths=4000)
+    paths = eng.explore(w)
+    rep.functions_encoded.append(w)
+    n_ok = n_err = 0
+    reported = set()
+    for i, r in enumerate(paths):
+        if r.status != "return" or not isinstance(r.ret, Agg):
+            continue
+        me = origin(r.args[0]).child("*")
+        en, st, ver = me.child(("f", f_en)), me.child(("f", f_st)), me.child(("f", f_ver))
+        en_some, st_some = en.discr() == 1, st.discr() == 1
+        lows = [e for e in r.events if e.kind == "call" and re.search(r"to_lowercase$|to_ascii_lowercase$", e.callee) and derives(e.rargs[0], st, r.events)]
+        if lows:
+            lv = lows[0].ret.string()
+            state_ok = z3.Or([lv == z3.StringVal(c) for c in ("disabled", "wireserver", "wireserverandimds")])
+        else:
+            state_ok = z3.Bool("state_ok_free_%d" % i)
+        v = ver.string()
+        valid = z3.And(z3.Not(z3.And(z3.Not(en_some), z3.Not(st_some))), z3.Implies(st_some, state_ok), z3.Implies(z3.Not(st_some), v != z3.StringVal("1.0")),
+                       z3.Implies(z3.Not(en_some), v != z3.StringVal("2.0")))
+        dom = [z3.Or(en.discr() == 0, en.discr() == 1), z3.Or(st.discr() == 0, st.discr() == 1)]
+        is_ok = r.ret.variant == "Ok"
+        n_ok += is_ok
+        n_err += (not is_ok)
+        qn = "validate path %d: %s <=> the reference predicate" % (i, "accepts" if is_ok else "rejects")
+        bad = add_query(rep, qn, r.pc + dom + [valid != z3.BoolVal(is_ok)], key="C09.valid.reference")
+        if bad:
+            zm = bad[2]
+            def tx(e):
+                try:
+                    return zm.eval(e, model_completion=True).as_string()
+                except Exception:
+                    return "?"
+            desc = {"version": tx(v), "secureChannelEnabled": "present" if z3.is_true(zm.eval(en_some, model_completion=True)) else "missing",
+                    "secureChannelState": (tx(lows[0].ret.string()) if lows else "present") if z3.is_true(zm.eval(st_some, model_completion=True)) else "missing"}
+            k = json.dumps(desc, sort_keys=True)
+            if k in reported:
+                continue
+            reported.add(k)
+            rep.add(Query("validate %s a document the reference %s" % ("accepts" if is_ok else "rejects", "rejects" if is_ok else "accepts"), "violated", k, bad[1], "mirsym+z3", key="C09.valid.reference", model=desc, reproduced=None))
+    rep.add(Query("witness: validate has accepting and rejecting paths", "witness-hit" if n_ok and n_err else "witness-missed", "%d/%d" % (n_ok, n_err), 0, "mirsym"))
+
+
 def check(rep, tier, seed):
     ctx = Ctx("agent")
     rep.extra["mir_dump"] = {"cache_hit": ctx.dump.cache_hit, "tree_hash": ctx.dump.hash, "seconds": round(ctx.dump.seconds, 1)}
@@ -399,6 +481,7 @@ def check(rep, tier, seed):
     check_getters(rep, ctx)
     check_mode_getters(rep, ctx)
     check_state_string(rep, ctx)
+    check_document_validity(rep, ctx)
     rep.assumptions += ["the host's rule id identifies the rule content (rules are re-read only when the id changes)", "actor round-trips succeed in the convergence claim (a failed internal send is logged and retried by a later change)",
                         "Future::poll returns Ready"]
     rep.outside_claim += ["timing of polls", "rule items whose mode is none of enforce/audit/disabled (the state string calls them Disabled while get_*_mode returns the raw text)", "redirector map writes (C06)"]
